@@ -735,6 +735,9 @@ Proof.
   - (* ImportMnemonic *)
     apply bind_panic in H. destruct H as [H|(u & _ & H)]; [|exfalso; exact (answer_no_panic _ _ H)].
     destruct (task_queue_panic _ _ _ H) as (-> & Hf & _). exact Hf.
+  - (* ValidateAddress *)
+    unfold validate_address in H. destruct (c_addr cd addr); try discriminate;
+      (destruct (evicted w); [destruct (fx_cur_evicted fx) eqn:F; [discriminate|inversion H; subst; exact F]|destruct (cur w); discriminate]).
   - (* GetAddressBalance *)
     apply bind_panic in H. destruct H as [H|(u & _ & H)]; [|exfalso; exact (answer_no_panic _ _ H)].
     destruct (wm_balance_panic _ _ _ _ _ H) as (-> & Hf). exact Hf.
@@ -842,13 +845,13 @@ Theorem api_as_found_panics_only_at_pending_sites trim cd e w r p :
   wf w -> wf_env e -> selected_ok w e -> req_ok r -> api_request r ->
   sequential w -> taskchan w = true ->
   handle trim cd as_found e w r = Panic p ->
-  p = PCtiIndex \/ p = PCtiBlockNil \/ p = PSignMetaNil \/ p = PBindHistIndex \/ p = PBindHistTargetNil.
+  p = PCtiIndex \/ p = PCtiBlockNil \/ p = PSignMetaNil \/ p = PBindHistIndex \/ p = PBindHistTargetNil \/ p = PCurEvictedNil.
 Proof.
   intros Hw He Hs Hr Ha (Hseq & Hseq3) Htc H.
   (* re-run the analysis with the switches of the sites that cannot fire here turned on *)
   set (fx := {| fx_cti_index := false; fx_cti_block := false; fx_cti_dup := false; fx_senders := true; fx_sign_meta := false; fx_sign_len0 := false;
                 fx_cur_nil := true; fx_cur3_nil := true; fx_import_rec := true; fx_taskchan := true; fx_select_neg := true;
-                fx_bindhist_hash := false |}).
+                fx_cur_evicted := false; fx_bindhist_hash := false |}).
   assert (E : handle trim cd as_found e w r = handle trim cd fx e w r).
   { unfold handle. destruct (prologue trim cd r) eqn:P; cbn [bind]; try reflexivity.
     destruct (cur w) as [c|] eqn:C.
@@ -931,11 +934,11 @@ Definition store0 : store :=
      st_unmined := fun h => if (h =? 1)%N then Some tx_pending else None;
      st_utxo := fun h i => if (h =? 1)%N && (0 <=? i) && (i <? 2) then Some false
                            else if (h =? 2)%N && (i =? 0) then Some false else None |}.
-Definition w_sel : wst := {| cur := Some 5%N; cur2 := Some 5%N; cur3 := Some 5%N; st := store0; taskchan := true |}.
-Definition w_none : wst := {| cur := None; cur2 := None; cur3 := None; st := store0; taskchan := true |}.
-Definition w_race : wst := {| cur := Some 5%N; cur2 := None; cur3 := None; st := store0; taskchan := true |}.       (* removal completed between the first two reads *)
-Definition w_race3 : wst := {| cur := Some 5%N; cur2 := Some 5%N; cur3 := None; st := store0; taskchan := true |}.  (* … after the store was read *)
-Definition w_starting : wst := {| cur := None; cur2 := None; cur3 := None; st := store0; taskchan := false |}.      (* worker() not yet scheduled *)
+Definition w_sel : wst := {| cur := Some 5%N; cur2 := Some 5%N; cur3 := Some 5%N; st := store0; taskchan := true; evicted := false |}.
+Definition w_none : wst := {| cur := None; cur2 := None; cur3 := None; st := store0; taskchan := true; evicted := false |}.
+Definition w_race : wst := {| cur := Some 5%N; cur2 := None; cur3 := None; st := store0; taskchan := true; evicted := false |}.       (* removal completed between the first two reads *)
+Definition w_race3 : wst := {| cur := Some 5%N; cur2 := Some 5%N; cur3 := None; st := store0; taskchan := true; evicted := false |}.  (* … after the store was read *)
+Definition w_starting : wst := {| cur := None; cur2 := None; cur3 := None; st := store0; taskchan := false; evicted := false |}.      (* worker() not yet scheduled *)
 
 Lemma wf_store0 : wf_store store0.
 Proof.
@@ -1132,13 +1135,13 @@ Qed.
 Lemma current_code_switches :
   current_code = {| fx_cti_index := true; fx_cti_block := true; fx_cti_dup := true; fx_senders := true; fx_sign_meta := true; fx_sign_len0 := true;
                     fx_cur_nil := true; fx_cur3_nil := true; fx_import_rec := true; fx_taskchan := true; fx_select_neg := true;
-                    fx_bindhist_hash := false |}.
+                    fx_cur_evicted := false; fx_bindhist_hash := false |}.
 Proof. reflexivity. Qed.
 
-(* the code as it stands can panic only at the two sites of GetBindingHistory *)
-Theorem current_code_panics_only_at_binding_history_sites trim cd e w r p :
+(* the code as it stands can panic only at the two sites of GetBindingHistory and at the cache look-up of ValidateAddress *)
+Theorem current_code_panics_only_at_known_sites trim cd e w r p :
   wf w -> wf_env e -> selected_ok w e -> req_ok r ->
-  handle trim cd current_code e w r = Panic p -> p = PBindHistIndex \/ p = PBindHistTargetNil.
+  handle trim cd current_code e w r = Panic p -> p = PBindHistIndex \/ p = PBindHistTargetNil \/ p = PCurEvictedNil.
 Proof.
   intros Hw He Hs Hr H.
   pose proof (handle_panic_only_unfixed _ _ _ _ _ _ _ Hw He Hs Hr H) as G.
@@ -1154,4 +1157,29 @@ Theorem binding_history_panic_needs_lagging_row trim cd fx e w t p :
 Proof.
   intros (_ & _ & _ & _ & _ & Hrows) H. unfold handle in H. cbn [prologue bind deep] in H.
   exact (get_binding_history_panic _ _ _ _ Hrows H).
+Qed.
+
+(* ---------------------------------------------------------------- ValidateAddress after the keystore cache lost the selected keystore *)
+(* the database is failing (after Stop): NewAddress fails, drops the cached keystore by name in order to reload it, and the
+   reload fails too, while km.currentKeystore keeps naming the keystore *)
+Definition w_evicted : wst := {| cur := None; cur2 := None; cur3 := None; st := store0; taskchan := true; evicted := true |}.
+
+Theorem cur_evicted_refuted :
+  wf w_evicted /\ wf_env env0 /\
+  handle id_trim cd0 as_found env0 w_evicted (RValidateAddress [109]) = Panic PCurEvictedNil /\
+  handle id_trim cd0 current_code env0 w_evicted (RValidateAddress [109]) = Panic PCurEvictedNil /\
+  handle id_trim cd0 all_fixed env0 w_evicted (RValidateAddress [109]) = Err ErrAPINoWalletInUse /\
+  (* an address that does not decode is answered before the keystore is consulted; the other requests see "no wallet in use" *)
+  handle id_trim cd0 as_found env0 w_evicted (RValidateAddress [122]) = Ok tt /\
+  handle id_trim cd0 as_found env0 w_evicted (RGetWalletBalance 1 true) = Err ErrAPINoWalletInUse.
+Proof. split; [exact wf_store0|]. split; [exact wf_env0|]. repeat split; vm_compute; reflexivity. Qed.
+
+Theorem validate_address_panic_needs_evicted trim cd fx e w a p :
+  handle trim cd fx e w (RValidateAddress a) = Panic p ->
+  p = PCurEvictedNil /\ fx_cur_evicted fx = false /\ evicted w = true.
+Proof.
+  intros H. unfold handle in H. apply bind_panic in H. destruct H as [H|(u & _ & H)]; [exfalso; exact (prologue_no_panic _ _ _ _ H)|].
+  cbn [deep] in H. unfold validate_address in H.
+  destruct (c_addr cd a); try discriminate;
+    (destruct (evicted w); [destruct (fx_cur_evicted fx); [discriminate|inversion H; auto]|destruct (cur w); discriminate]).
 Qed.
